@@ -551,6 +551,7 @@ pub fn execute(case: &RegCase) -> (RunResult, CaseReport) {
         script: case.script.clone(),
         abort_on_cell_race: true,
         stretch: 1,
+        hold: None,
     };
     let exec = Exec::new(cfg, n);
     {
